@@ -1,1 +1,132 @@
 // Kani contract harnesses for /repo/parquet/src/arrow/arrow_reader/selection/mod.rs (child module: sees private items via super::)
+//
+// View (C06): `sel(v, p)`: is row position p selected (false beyond the end); `total(v)`; checked pointwise at a symbolic
+// position with unbounded run lengths (each <= usize::MAX/16); the number of runs / ranges is concrete per harness.
+use super::*;
+
+const RUN_MAX: usize = usize::MAX >> 4;
+
+fn total(v: &[RowSelector]) -> usize { let mut t = 0usize; for s in v { t += s.row_count; } t }
+fn selected_total(v: &[RowSelector]) -> usize { let mut t = 0usize; for s in v { if !s.skip { t += s.row_count; } } t }
+fn sel(v: &[RowSelector], p: usize) -> bool {
+    let mut start = 0usize;
+    for s in v { if p < start + s.row_count { return !s.skip; } start += s.row_count; }
+    false
+}
+fn any_runs<const N: usize>(nonzero: bool) -> [RowSelector; N] {
+    let mut a = [RowSelector { row_count: 0, skip: false }; N];
+    let mut i = 0;
+    while i < N {
+        let c: usize = kani::any(); kani::assume(c <= RUN_MAX && (!nonzero || c > 0));
+        a[i] = RowSelector { row_count: c, skip: kani::any() }; i += 1;
+    }
+    a
+}
+fn runs_of(r: &RowSelection) -> &[RowSelector] {
+    match &r.inner { RowSelectionInner::Selectors(s) => s.as_slice(), RowSelectionInner::Mask(_) => panic!("expected runs") }
+}
+fn canonical(v: &[RowSelector]) -> bool {
+    let mut i = 0;
+    while i < v.len() { if v[i].row_count == 0 || (i > 0 && v[i - 1].skip == v[i].skip) { return false; } i += 1; }
+    true
+}
+
+// Contract (C06): RowSelection::from(Vec<RowSelector>) (= FromIterator) normalises without changing the denoted set:
+// same total, sel(r, p) = sel(v, p) for every p, and the stored runs are canonical (no empty run, adjacent runs
+// alternate between skip and select).
+macro_rules! from_vec_unit {
+    ($name:ident, $n:expr, $unw:expr) => {
+        #[kani::proof]
+        #[kani::unwind($unw)]
+        fn $name() {
+            let v = any_runs::<$n>(false);
+            let r = RowSelection::from(v.to_vec());
+            let rv = runs_of(&r);
+            assert!(total(rv) == total(&v) && canonical(rv));
+            let p: usize = kani::any();
+            assert!(sel(rv, p) == sel(&v, p));
+            kani::cover!(rv.len() == $n); kani::cover!(rv.len() == 1 && $n > 1); kani::cover!(rv.is_empty());
+            std::mem::forget(r);
+        }
+    };
+}
+// @unit name=from_vec_n2 props=C06 kind=bounded bound=2_runs_(lengths_unbounded) fns=RowSelection::from_iter,RowSelection::from timeout=600 tier=thorough confirmed=no_(not_seen_to_finish_under_load)
+from_vec_unit!(from_vec_n2, 2, 6);
+// @unit name=from_vec_n3 props=C06 kind=bounded bound=3_runs_(lengths_unbounded) fns=RowSelection::from_iter,RowSelection::from timeout=900 mem=4 tier=thorough confirmed=no_(not_seen_to_finish_under_load)
+from_vec_unit!(from_vec_n3, 3, 7);
+
+// Contract (C06): RowSelection::from_consecutive_ranges(ranges, total_rows) for ranges that are ordered and
+// non-overlapping (start_i >= end_(i-1), start_i <= end_i; otherwise it panics "out of order") with the last end <=
+// total_rows: total(r) = total_rows and sel(r, p) <=> p lies in one of the ranges.
+macro_rules! from_ranges_unit {
+    ($name:ident, $n:expr, $unw:expr) => {
+        #[kani::proof]
+        #[kani::unwind($unw)]
+        fn $name() {
+            let mut rs: [std::ops::Range<usize>; $n] = std::array::from_fn(|_| 0..0);
+            let mut prev = 0usize; let mut i = 0;
+            while i < $n {
+                let (s, e): (usize, usize) = (kani::any(), kani::any());
+                kani::assume(s >= prev && e >= s && e <= RUN_MAX);
+                rs[i] = s..e; prev = e; i += 1;
+            }
+            let total_rows: usize = kani::any(); kani::assume(total_rows >= prev && total_rows <= RUN_MAX);
+            let spec = rs.clone();
+            let r = RowSelection::from_consecutive_ranges(rs.into_iter(), total_rows);
+            let rv = runs_of(&r);
+            assert!(total(rv) == total_rows);
+            let p: usize = kani::any();
+            let mut inside = false; let mut i = 0;
+            while i < $n { if p >= spec[i].start && p < spec[i].end { inside = true; } i += 1; }
+            assert!(sel(rv, p) == inside);
+            kani::cover!(inside); kani::cover!(!inside && p < total_rows);
+            kani::cover!(rv.len() == 2 * $n + 1);
+            kani::cover!(rv.len() == 1 && $n > 1 && !rv[0].skip);       // adjacent ranges merged
+            kani::cover!(spec[0].start == 0 && spec[0].end > 0);         // first range starts at row 0 (no leading skip)
+            kani::cover!(spec[0].start == spec[0].end && inside);        // an empty range is ignored
+            kani::cover!(total_rows == prev && prev > 0);                // no trailing skip
+            std::mem::forget(r);
+        }
+    };
+}
+// @unit name=from_consecutive_ranges_n2 props=C06 kind=bounded bound=2_ranges_(bounds_unbounded) fns=RowSelection::from_consecutive_ranges timeout=600 tier=thorough confirmed=no_(not_seen_to_finish_under_load)
+from_ranges_unit!(from_consecutive_ranges_n2, 2, 6);
+// @unit name=from_consecutive_ranges_n3 props=C06 kind=bounded bound=3_ranges_(bounds_unbounded) fns=RowSelection::from_consecutive_ranges timeout=900 mem=4 tier=thorough confirmed=no_(not_seen_to_finish_under_load)
+from_ranges_unit!(from_consecutive_ranges_n3, 3, 7);
+
+// Contract (C06): on a run-length RowSelection with N runs (no empty runs -- the invariant kept by every constructor):
+//   row_count = number of selected positions, skipped_row_count = number of skipped positions, total_row_count = their
+//   sum; selects_any <=> row_count > 0; iter yields exactly the stored runs in order;
+//   trim() drops trailing skipped rows only: sel unchanged at every position, selected count unchanged, and the
+//   trimmed selection is empty or ends with a selected run.
+macro_rules! counts_unit {
+    ($name:ident, $n:expr, $unw:expr) => {
+        #[kani::proof]
+        #[kani::unwind($unw)]
+        fn $name() {
+            let v = any_runs::<$n>(true);
+            let r = RowSelection::from_selectors(v.to_vec());
+            assert!(r.row_count() == selected_total(&v));
+            assert!(r.skipped_row_count() == total(&v) - selected_total(&v));
+            assert!(r.total_row_count() == total(&v));
+            assert!(r.selects_any() == (selected_total(&v) > 0));
+            {
+                let mut it = r.iter(); let mut i = 0;
+                while i < $n { assert!(it.next() == Some(&v[i])); i += 1; }
+                assert!(it.next().is_none());
+            }
+            let t = r.clone().trim();
+            let tv = runs_of(&t);
+            let p: usize = kani::any();
+            assert!(sel(tv, p) == sel(&v, p));
+            assert!(selected_total(tv) == selected_total(&v) && total(tv) <= total(&v));
+            assert!(tv.is_empty() || !tv[tv.len() - 1].skip);
+            kani::cover!(tv.len() < $n && !tv.is_empty()); kani::cover!(tv.is_empty()); kani::cover!(tv.len() == $n);
+            std::mem::forget(r); std::mem::forget(t);
+        }
+    };
+}
+// @unit name=counts_iter_trim_n2 props=C06 kind=bounded bound=2_runs_(lengths_unbounded) fns=RowSelection::row_count,RowSelection::skipped_row_count,RowSelection::total_row_count,RowSelection::selects_any,RowSelection::iter,RowSelection::trim timeout=600 tier=thorough
+counts_unit!(counts_iter_trim_n2, 2, 6);
+// @unit name=counts_iter_trim_n3 props=C06 kind=bounded bound=3_runs_(lengths_unbounded) fns=RowSelection::row_count,RowSelection::skipped_row_count,RowSelection::total_row_count,RowSelection::selects_any,RowSelection::iter,RowSelection::trim timeout=900 mem=4 tier=thorough
+counts_unit!(counts_iter_trim_n3, 3, 7);
